@@ -3,6 +3,7 @@ package main
 // C11: input hygiene — effect-free prefixes, index provenance, optional callbacks, derefs.
 
 import (
+	"sort"
 	"fmt"
 	"go/ast"
 	"go/types"
@@ -12,7 +13,7 @@ import (
 var _ = ast.Inspect
 
 func init() {
-	propertyRules["C11"] = []ruleFn{rulePrefix, ruleIdx, ruleOptionalCB, rulePreCommitEnabled, ruleDeref, ruleStaleIndex, ruleViewResetCover, ruleDefs}
+	propertyRules["C11"] = []ruleFn{rulePrefix, ruleIdx, ruleOptionalCB, rulePreCommitEnabled, ruleDeref, ruleStaleIndex, ruleViewResetCover, ruleDefs, ruleRejectedNoTimer}
 	propertyExplain["C11"] = "G-PREFIX: in each handler every effect site (state write other than the liveness note, effectful callback, typed send, call of an effectful function) is behind that handler's admission condition, so inadmissible or duplicate inputs reach no effect; IDX: every index into a per-validator table or the validator list is a range key, an admitted sender index, MyIndex under MyIndex>=0, or the primary index; G-OPTIONAL-CB: callbacks checkConfig allows to be nil are called only under their enabling fact; G-DEREF: stored slots are dereferenced only when known non-nil; STALE-INDEX. Panic freedom is decided for these classes only (not for nil results of application callbacks, type assertions in payload implementations, division by a zero increment, misuse before Start)."
 }
 
@@ -573,4 +574,73 @@ func (c *RC) paramIndexOK(fn *FuncInfo, p *Term, tables map[string]bool, lenV *T
 		}
 	}
 	return ""
+}
+
+// G-REJECTED-NO-TIMER (C11): a payload that fails its verification — the application's Verify* callback, or the
+// signature / data check against the header / pre-block — is dropped; until then it must not have touched the timer.
+// (A handler that extends the timer first lets one Byzantine validator postpone every honest node's timeout for ever with
+// garbage: the rejected payload frees its slot, so the next one is processed the same way.) The ChangeView an invalid
+// proposal is answered with re-arms the timer by design and is not meant here.
+func ruleRejectedNoTimer(c *RC) *RuleResult {
+	r := &RuleResult{Rule: "G-REJECTED-NO-TIMER", Kind: "GUARD", Doc: "on every path of a payload handler on which a verification of the received payload failed, the timer has not been touched (no Timer.Extend / Timer.Reset), unless the rejection itself asks for a view change"}
+	hs := c.handlers()
+	cvs := c.senderOf("ChangeViewType")
+	isVerifyResult := func(t *Term) bool {
+		if t == nil {
+			return false
+		}
+		s := t.S
+		return strings.HasPrefix(s, "cfg.Verify") || strings.HasPrefix(s, "l:cb:Verify") || strings.HasPrefix(s, "l:cbres:Verify") ||
+			(strings.HasPrefix(s, "l:if:") && strings.Contains(s, ".Verify"))
+	}
+	reachExt, reachRst := c.funcsReaching("if:Timer.Extend"), c.funcsReaching("if:Timer.Reset")
+	var kinds []string
+	for k := range hs {
+		kinds = append(kinds, k)
+	}
+	sort.Strings(kinds)
+	nfail := 0
+	for _, k := range kinds {
+		h := hs[k]
+		for _, e := range c.exitsOf(h) {
+			failed := ""
+			for _, l := range e.TrailL {
+				if l.A.Op == "nn" && l.Pos && isVerifyResult(l.A.A) {
+					failed = l.String()
+				}
+			}
+			if failed == "" {
+				continue
+			}
+			nfail++
+			r.Sites++
+			asked := false
+			for _, f := range cvs {
+				if e.Events["fn:"+f.Name] {
+					asked = true
+				}
+			}
+			touched := e.Events["if:Timer.Extend"] || e.Events["if:Timer.Reset"]
+			// (a summarised callee that may touch it counts: `extendTimer` extends under conditions of its own)
+			for ev := range e.Events {
+				if strings.HasPrefix(ev, "fn:") && !strings.Contains(ev, "=") {
+					if f := c.Prog.fn(strings.TrimPrefix(ev, "fn:")); f != nil && (reachExt[f] || reachRst[f]) {
+						touched = true
+					}
+				}
+			}
+			switch {
+			case !touched:
+				r.ok(fmt.Sprintf("%s: a payload rejected by %s has not touched the timer", h.Name, failed))
+			case asked:
+				r.ok(fmt.Sprintf("%s: the rejection (%s) asks for a view change, which arms the timer", h.Name, failed))
+			default:
+				r.fail(h.Name+"/rejected-payload-touches-timer", c.Prog.Pos(h.Decl), fmt.Sprintf("%s touches the timer before it knows that the payload is valid: on path {%s} the verification fails (%s), the payload is dropped, and the timer has been extended or reset all the same — a validator can repeat that with garbage and keep this node's timeout from ever firing", h.Name, strings.Join(e.Trail, "; "), failed))
+			}
+		}
+	}
+	if nfail < 3 {
+		r.unresolved(fmt.Sprintf("paths of the payload handlers on which a verification fails (found %d)", nfail))
+	}
+	return r
 }
